@@ -2,7 +2,10 @@ module verif
 
 go 1.12
 
-require github.com/lianxiangcloud/linkchain v0.0.0
+require (
+	github.com/lianxiangcloud/linkchain v0.0.0
+	github.com/pkg/errors v0.8.1
+)
 
 replace github.com/lianxiangcloud/linkchain => /repo
 
